@@ -1,0 +1,48 @@
+//go:build verif
+
+// Contracts for package config, checked by /verif/govc (comment-only file).
+
+package config
+
+//@ func protoVersionCheck
+//@   modifies nothing
+//@   ensures (ret == nil) <==> (v == 6 || v == 4)
+
+//@ func splitHostPort
+//@   modifies nothing
+
+// C18: the listed address parsed as [address][%zone][:port], with the protocol's wildcard address
+// and default port filled in; wrong family, unparseable address or port are errors
+//@ func (*Config).getListenAddress
+//@   modifies nothing
+//@   ensures[C18:bad-version-is-an-error] (ver != 4 && ver != 6) ==> ret1 != nil
+//@   ensures[C18:result-or-error] (ret1 == nil) <==> (ret0 != nil)
+//@   ensures[C18,internal:default-port-filled-in] ret1 == nil ==> ((portStr == "" && ver == 4) ==> ret0.Port == 67) && ((portStr == "" && ver == 6) ==> ret0.Port == 547)
+//@   ensures[C18,internal:wildcard-address-filled-in] ret1 == nil ==> ((ipStr == "" && ver == 4) ==> ret0.IP == net.IPv4zero) && ((ipStr == "" && ver == 6) ==> ret0.IP == net.IPv6unspecified)
+//@   ensures[C18,internal:zone-carried] ret1 == nil ==> ret0.Zone == ifname
+//@   ensures[C18:family-matches-protocol] ret1 == nil ==> (ret0.IP != nil && ((ver == 6) <==> !isv4(ret0.IP)))
+
+//@ func parsePlugins
+//@   modifies everything
+//@   ensures[C18:one-entry-per-item-in-order] ret1 == nil ==> len(ret0) == len(pluginList)
+//@   loop 1: invariant len(plugins) == rangeindex + 1 && cap(plugins) >= len(pluginList) && rangeindex + 1 <= len(pluginList)
+
+//@ func (*Config).getPlugins
+//@   requires c != nil && c.v != nil
+//@   modifies everything
+
+//@ func (*Config).parseListen
+//@   requires c != nil && c.v != nil
+//@   modifies everything
+
+//@ func (*Config).parseConfig
+//@   requires c != nil && c.v != nil
+//@   modifies everything
+//@   preserves c.v
+
+//@ func expandLLMulticast
+//@   requires addr != nil
+//@   modifies everything
+
+//@ func defaultListen
+//@   modifies everything
